@@ -144,6 +144,8 @@ mutual
   def EVal.labelsOk : EVal → Bool
     | .cell _ => true
     | .date _ => true
+    | .tdelta _ => true
+    | .nat => true
     | .list xs => EVal.labelsOkList xs
     | .tuple xs => EVal.labelsOkList xs
     | .dict _ kvs => EVal.labelsOkKVs kvs
@@ -193,6 +195,7 @@ theorem eqN_refl_aux : ∀ n, ∀ a : EVal, sizeOf a ≤ n → eqN a a = true :=
     cases a <;> simp only [eqN, Bool.and_eq_true]
     case cell c => exact cellEq_refl c
     case date d => simp
+    case tdelta d => simp
     case list xs => simp at h; exact hlist xs (by omega)
     case tuple xs => simp at h; exact hlist xs (by omega)
     case arr s xs => simp at h; exact ⟨by simp, hlist xs (by omega)⟩
@@ -231,6 +234,7 @@ theorem eqN_symm_aux : ∀ n, ∀ a b : EVal, sizeOf a ≤ n → eqN a b = eqN b
     cases a <;> cases b <;> simp only [eqN]
     case cell.cell x y => exact cellEq_symm x y
     case date.date x y => exact Bool.beq_comm
+    case tdelta.tdelta x y => exact Bool.beq_comm
     case list.list xs ys => simp at h; exact hlist xs ys (by omega)
     case tuple.tuple xs ys => simp at h; exact hlist xs ys (by omega)
     case arr.arr s xs t ys =>
@@ -273,6 +277,7 @@ theorem eqN_trans_aux : ∀ n, ∀ a b c : EVal, sizeOf a ≤ n →
       cases c <;> simp only [eqN, Bool.false_eq_true] at hbc ⊢
     case cell.cell.cell x y z => exact cellEq_trans x y z hab hbc
     case date.date.date x y z => simp at hab hbc ⊢; omega
+    case tdelta.tdelta.tdelta x y z => simp at hab hbc ⊢; omega
     case list.list.list xs ys zs => simp at h; exact hlist xs ys zs (by omega) hab hbc
     case tuple.tuple.tuple xs ys zs => simp at h; exact hlist xs ys zs (by omega) hab hbc
     case arr.arr.arr s xs t ys u zs =>
@@ -350,6 +355,8 @@ mutual
   theorem norm_labelsOk : ∀ a : EVal, a.labelsOk = true → a.norm.labelsOk = true
     | .cell _, _ => rfl
     | .date _, _ => rfl
+    | .tdelta _, _ => rfl
+    | .nat, _ => rfl
     | .list xs, h => by
         simp only [EVal.norm, EVal.labelsOk] at h ⊢; exact normList_labelsOk xs h
     | .tuple xs, h => by
@@ -386,6 +393,8 @@ end
 def EVal.kind : EVal → Nat × Nat
   | .cell _ => (0, 0)
   | .date _ => (0, 0)
+  | .tdelta _ => (0, 0)
+  | .nat => (0, 0)
   | .list _ => (1, 0)
   | .tuple _ => (2, 0)
   | .dict c _ => (3, c)
@@ -418,6 +427,7 @@ mutual
   def EVal.seqPlain : EVal → Bool
     | .cell c => c != .nan
     | .date _ => true
+    | .tdelta _ => true
     | .list xs => EVal.seqPlainList xs
     | .tuple xs => EVal.seqPlainList xs
     | _ => false
